@@ -21,29 +21,47 @@ positions.  Tolerated differences - ONLY the documented normalisations:
   (c) NaN is the unset marker for reals: a NaN real may come back None (and None may come back NaN); consequently
       a dict key whose value is NaN may be dropped and an entry whose reals are all NaN may come back None
       (counted in `tolerated`).
-Anything else that is not an exception on the write side is a violation.  Violation ids (one per failure class):
-  <clause>.silent-change      a value reads back different (2.5 -> 2, 1 -> '1', 2**64-1 -> 1.8e19)
-  <clause>.kind-promotion     the value is numerically equal but its numeric kind changed (1 -> 1.0, True -> 1)
-  <clause>.none-position      None came back as a value or a value came back None
-  <clause>.unsigned-sentinel  none-position failure in a collection of unsigned numpy integers
-  <clause>.sentinel-collision a value equal to the None sentinel of its dtype came back None
-  <clause>.shape              same leaves, different shape (scalar -> 1-element array, ragged entry flattened)
-  <clause>.entries-dropped    the write was accepted but the stored data hold another number of entries than objects
-                              (reading raises "unmatched sizes" or gives a shorter list)
-  <clause>.read-error         the write was accepted but reading raises anything else
-with <clause> in {pack, db.params} for collections of ONE kind and dtype, and <clause>.mixed.<class> (e.g.
-db.params.mixed.kind-promotion) for collections that mix kinds or dtypes (so that a mixed-kind failure can never hide a
-one-kind failure of the same class).  Further ids: nonsense.roundtrip / nonsense.values / nonsense.unsigned-sentinel /
-nonsense.sentinel-collision; jagged.offsets / jagged.length / jagged.shapes / jagged.nones / jagged.flat /
-jagged.roundtrip (also with .mixed.); db.params.hierarchy; db.load; attrs.spill-roundtrip.
-Only the smallest failing input of each id is reported (with the number of failing inputs); all counts are in
-`violation_counts`.  `--replay '<input>'` re-runs one reported input; `--dump <file>` writes every failing input.
+Anything else that is not an exception on the write side is a violation.
+
+Violation ids: <clause>.<class>, one failure CLASS per id, with <clause> in {pack, db.params, nonsense, jagged.flat,
+jagged.roundtrip}.  Classes with an identified cause keep the same id in every collection:
+  sentinel-collision            a value EQUAL to the None marker of a dtype present in the collection (min+2 signed,
+                                max-2 unsigned, "<!None!>" str) came back None - documented limitation of the scheme
+  unsigned-sentinel             writer and reader disagree on the None marker of ONE unsigned dtype: None came back as a
+                                value, or a value that is not the marker came back None
+  shape.inner-ragged-flattened  an entry whose inner lists differ in length came back as a flat 1-d array
+  jagged-entry-skipped          a collection stored ragged (it holds a list/array) that also holds a str / dict / Flags /
+                                numpy scalar other than float64: JaggedArray leaves that entry out, so reading raises
+                                "unmatched sizes" / IndexError, or everything comes back None
+The other classes are <clause>.<class> in a collection of ONE kind and dtype and <clause>.mixed.<class> in a collection
+that mixes kinds or dtypes (decided from the input alone), so that a mixed-kind finding never hides a one-kind failure:
+  none-position          None came back as a value / a value came back None (none of the causes above)
+  kind-promotion         bool -> int, bool -> float, int -> float with the same numeric value (1 -> 1.0)
+  int-precision-lost     int -> float with another value (2**64-1 -> 1.8446744073709552e19)
+  float-to-int           float -> int, same value or truncated (2.5 -> 2): everything is cast to the first entry's type
+  int-wrapped            int -> another int (300 -> 44): cast to the first entry's narrower / other-signed dtype
+  value-cast-to-sentinel a value that the cast to the first entry's dtype turns into that dtype's None marker -> None
+  number-to-str          number / bool -> its string (1 -> '1') because a str is in the collection
+  scalar-to-array        a scalar among sequences came back as a 1-element array
+  flags-coerced          a Flags object stored as its integer / as an empty dict (direct pack calls only)
+  read-error             the write was accepted, reading raises (current tree: only pack.mixed.read-error - a direct pack
+                         call on an object array WITHOUT None that holds a Flags object: stored via int(Flags), no
+                         "nones" attribute, unpackSpecialData refuses it)
+  shape, silent-change, entries-dropped   anything else of that nature (nothing on the current tree)
+Further ids: nonsense.values, nonsense.roundtrip (raises, or any other difference); jagged.offsets / .length / .shapes / .nones; jagged.roundtrip
+(raises); db.params.hierarchy; db.load; attrs.spill-roundtrip.
+Only the smallest failing input of each id is reported (fewest entries, then shortest JSON, then alphabetical - fixed for
+a tier, independent of --seed except for the seeded 3-kind mixes of the thorough tier); the number of failing inputs
+per id is in `violation_counts`, and `reachable_through_writeParams` says for every pack.* id whether the same class also
+fires on the public path (db.params.*).  `--replay '<input>'` re-runs one reported input; `--dump <file>` writes every
+failing input.
 """
 import sys, os
 sys.path.insert(0, os.path.dirname(os.path.abspath(__file__)))
 import itertools
 import json
 import tempfile
+import zlib
 
 from common import Bounded
 
@@ -145,6 +163,7 @@ for _dt in INT_DTYPES[:4]:
     KINDS["sentinel-" + _dt] = [["np", _dt, int(II(_dt).min) + 2], ["np", _dt, 1]]
 for _dt in INT_DTYPES[4:]:
     KINDS["sentinel-" + _dt] = [["np", _dt, int(II(_dt).max) - 2], ["np", _dt, 2], ["np", _dt, 1]]
+KINDS["sentinel-str"] = [["s", "<!None!>"], ["s", "abc"]]
 KINDS["sentinel-pyint"] = [["i", int(II("int64").min) + 2], ["i", 3]]
 KINDS["np-int8+int16+int32+uint8"] = [["np", "int8", 5], ["np", "int16", 300], ["np", "int32", 70000], ["np", "uint8", 200]]
 KINDS["float"] = [["f", 0.0], ["f", -1.5], ["f", 1e300], ["f", 5e-324], ["f", "inf"], ["f", "-inf"]]
@@ -209,7 +228,7 @@ def collections():
                 if n - sum(mask) < 2:
                     continue
                 for start in (0, 1):
-                    r = B.rng.randrange(12)
+                    r = zlib.crc32(("%s|%s|%s|%d" % (k1, k2, mask, start)).encode()) % 12  # fixed, independent of seed and tier
                     out, j = [], 0
                     for m in mask:
                         if m:
@@ -280,7 +299,10 @@ def sig(x):
     return "."
 
 
+# Result of comparing one expected leaf / entry with what was read: (coarse, detail).  coarse orders severity; detail names
+# the observable failure class (one class per id).
 RANK = {"ok": 0, "kind": 1, "shape": 2, "none": 3, "value": 4}
+OK = ("ok", "")
 TOL = {}
 
 
@@ -292,113 +314,194 @@ def leaf_cmp(e, a):
     e, a = native(e), native(a)
     if e is None:
         if a is None:
-            return "ok"
+            return OK
         if isnan(a):
             tol("None->NaN")
-            return "ok"
-        return "none"
+            return OK
+        return ("none", "none-became-value")
     if isnan(e):
         if a is None:
             tol("NaN->None")
-            return "ok"
-        return "ok" if isnan(a) else "value"
+            return OK
+        return OK if isnan(a) else ("value", "number-to-str" if isinstance(a, str) else "silent-change")
     if a is None:
-        return "none"
+        return ("none", "value-became-none")
     ke, ka = kind(e), kind(a)
     if ke == ka:
-        return "ok" if e == a else "value"
-    if ke in ("bool", "int", "float") and ka in ("bool", "int", "float"):
-        return "kind" if e == a else "value"  # python compares int/float exactly
-    return "value"
+        if e == a:
+            return OK
+        return ("value", "int-wrapped" if ke == "int" else "silent-change")
+    num = ("bool", "int", "float")
+    if ke in num and ka in num:  # python compares bool/int/float exactly
+        if ke == "float":  # float -> int / bool: demotion, value kept (-3.0 -> -3) or truncated (2.5 -> 2)
+            return ("kind" if e == a else "value", "float-to-int")
+        if e == a:
+            return ("kind", "kind-promotion")  # bool -> int, bool -> float, int -> float with the same numeric value
+        return ("value", "int-precision-lost" if ka == "float" else "silent-change")
+    if ke in num and ka == "str":
+        return ("value", "number-to-str")
+    return ("value", "silent-change")
 
 
 def worst(rs):
-    return max(rs, key=RANK.get) if rs else "ok"
+    return max(rs, key=lambda r: RANK[r[0]]) if rs else OK
+
+
+def own_shape(x):
+    """Shape by an own walk; None when the entry is not rectangular (inner-ragged)."""
+    if isinstance(x, np.ndarray):
+        return tuple(x.shape)
+    if not isinstance(x, (list, tuple)):
+        return ()
+    subs = [own_shape(c) for c in x]
+    if not subs:
+        return (0,)
+    if any(s is None for s in subs) or len(set(subs)) != 1:
+        return None
+    return (len(x),) + subs[0]
 
 
 def entry_cmp(e, a):
     if isinstance(e, Flag):
         if a is None:
-            return "none"
-        return "ok" if isinstance(a, Flag) and type(a) is type(e) and e._flagsOn() == a._flagsOn() else "value"
+            return ("none", "value-became-none")
+        if not isinstance(a, Flag):
+            return ("value", "flags-coerced")  # a Flags object stored as its integer / as an empty dict
+        return OK if type(a) is type(e) and e._flagsOn() == a._flagsOn() else ("value", "silent-change")
     if isinstance(e, dict):
         if not isinstance(a, dict):
-            return "none" if a is None else "value"
+            return ("none", "value-became-none") if a is None else ("value", "silent-change")
         ee = {str(k): v for k, v in e.items() if not isnan(v)}
         if len(ee) != len(e):
             tol("dict NaN value->key dropped")
         aa = {str(k): v for k, v in a.items()}
         if set(ee) != set(aa):
-            return "value"
+            return ("value", "silent-change")
         return worst([leaf_cmp(ee[k], aa[k]) for k in ee])
     if is_seq(e):
         le = leaves(e)
         if not le:  # an empty entry
             if a is None:
                 tol("empty->None")
-                return "ok"
-            return "ok" if is_seq(a) and not leaves(a) else "value"
+                return OK
+            return OK if is_seq(a) and not leaves(a) else ("value", "silent-change")
         if a is None:
             if all(isnan(x) for x in le):
                 tol("all-NaN entry->None")
-                return "ok"
-            return "none"
+                return OK
+            return ("none", "value-became-none")
         if not is_seq(a):
-            return "shape" if len(le) == 1 and leaf_cmp(le[0], a) in ("ok", "kind") else "value"
+            return ("shape", "shape") if len(le) == 1 and leaf_cmp(le[0], a)[0] in ("ok", "kind") else ("value", "silent-change")
         la = leaves(a)
         if len(la) != len(le):
-            return "value"
+            return ("value", "silent-change")
         r = worst([leaf_cmp(x, y) for x, y in zip(le, la)])
-        if sig(e) != sig(a) and RANK[r] < RANK["shape"]:
-            return "shape"
+        if sig(e) != sig(a) and RANK[r[0]] < RANK["shape"]:
+            return ("shape", "shape.inner-ragged-flattened" if own_shape(e) is None and own_shape(a) == (len(le),) else "shape")
         return r
     # scalar or None expected
     if is_seq(a):
         la = leaves(a)
         if e is None:
-            return "none"
-        return "shape" if len(la) == 1 and leaf_cmp(e, la[0]) in ("ok", "kind") else "value"
+            return ("none", "none-became-value")
+        if len(la) != 1:
+            return ("value", "silent-change")
+        r = leaf_cmp(e, la[0])
+        return ("shape", "scalar-to-array") if r[0] in ("ok", "kind") else r
     if isinstance(a, (dict, Flag)):
-        return "none" if e is None else "value"
+        return ("none", "none-became-value") if e is None else ("value", "silent-change")
     return leaf_cmp(e, a)
 
 
-def is_unsigned(x):
-    return (isinstance(x, np.unsignedinteger)) or (isinstance(x, np.ndarray) and x.dtype.kind == "u")
+# ---- attribution of a failure to its class (used only to choose the id; pass/fail is decided above) ---------------
+def sentinel_of(x):
+    """The value the encoder stores for None next to data of x's type (layout.NONE_MAP as documented: min+2 for signed,
+    max-2 for unsigned, "<!None!>" for str; NaN for reals is a documented normalisation, not a collision)."""
+    if isinstance(x, (bool, np.bool_)):
+        return None
+    if isinstance(x, np.ndarray):
+        x = x.dtype.type(0) if x.dtype.kind in "iu" else None
+    if isinstance(x, np.signedinteger):
+        return int(np.iinfo(x.dtype).min) + 2
+    if isinstance(x, np.unsignedinteger):
+        return int(np.iinfo(x.dtype).max) - 2
+    if isinstance(x, int):
+        return int(np.iinfo(np.int64).min) + 2
+    if isinstance(x, str):
+        return "<!None!>"
+    return None
 
 
-def is_sentinel(x):
-    x0 = x
-    if isinstance(x0, np.ndarray):
+def one_unsigned_dtype(nonNone):
+    return bool(nonNone) and all(isinstance(e, np.unsignedinteger) for e in nonNone) and len({e.dtype for e in nonNone}) == 1
+
+
+def has_skippable_entry(entries):
+    """A collection that is stored ragged (it holds a list / array) AND holds an entry that is neither a sequence nor a
+    python int / float (str, dict, Flags, numpy scalars other than float64): JaggedArray.__init__ leaves such entries out."""
+    return any(isinstance(e, (list, np.ndarray)) for e in entries) and any(
+        e is not None and not is_seq(e) and not isinstance(e, (int, float)) for e in entries)
+
+
+def cast_hits_sentinel(ev, nonNone):
+    """Attribution only: the encoder casts every entry to the type of the first one; does that turn ev into that type's marker?"""
+    first = nonNone[0]
+    if not isinstance(first, np.integer) or not isinstance(native(ev), (int, float)) or isinstance(native(ev), bool):
         return False
-    if isinstance(x0, bool):
+    try:
+        box = np.empty(1, dtype=object)
+        box[0] = ev
+        with np.errstate(all="ignore"):
+            return int(box.astype(first.dtype)[0]) == sentinel_of(first)
+    except Exception:
         return False
-    if isinstance(x0, np.signedinteger):
-        return int(x0) == int(np.iinfo(x0.dtype).min) + 2
-    if isinstance(x0, int):
-        return x0 == int(np.iinfo(np.int64).min) + 2
-    return x0 == "<!None!>" if isinstance(x0, str) else False
+
+
+ROOT_CAUSE = ("sentinel-collision", "unsigned-sentinel", "shape.inner-ragged-flattened", "jagged-entry-skipped")
+
+
+def classify(expected, i, e, r):
+    coarse, detail = r
+    nonNone = [x for x in expected if x is not None]
+    if coarse == "none":
+        if detail == "value-became-none":
+            sentinels = {sentinel_of(x) for x in nonNone} - {None}
+            ev = native(e)
+            if not is_seq(e) and not isinstance(ev, bool) and isinstance(ev, (int, str)) and ev in sentinels:
+                return "sentinel-collision"
+            if has_skippable_entry(expected):
+                return "jagged-entry-skipped"
+            if cast_hits_sentinel(e, nonNone):
+                return "value-cast-to-sentinel"
+        if one_unsigned_dtype(nonNone):
+            return "unsigned-sentinel"  # writer and reader disagree on the None marker of an unsigned dtype
+        return "none-position"
+    return detail
 
 
 def compare(expected, actual):
     """Return {failure class: first index}; empty = equal up to the documented normalisations."""
     out = {}
     if len(expected) != len(actual):
-        return {"entries-dropped": -1}
-    nonNone = [e for e in expected if e is not None]
-    uns = bool(nonNone) and all(is_unsigned(e) for e in nonNone)
+        return {"jagged-entry-skipped" if has_skippable_entry(expected) else "entries-dropped": -1}
     for i, (e, a) in enumerate(zip(expected, actual)):
         r = entry_cmp(e, a)
-        if r == "ok":
-            continue
-        cls = {"value": "silent-change", "kind": "kind-promotion", "shape": "shape", "none": "none-position"}[r]
-        if r == "none":
-            if uns:
-                cls = "unsigned-sentinel"
-            elif is_sentinel(e):
-                cls = "sentinel-collision"
-        out.setdefault(cls, i)
+        if r[0] != "ok":
+            out.setdefault(classify(expected, i, e, r), i)
     return out
+
+
+def spec_kind(s):
+    if s[0] in ("np", "a"):
+        return s[0] + ":" + s[1]
+    if s[0] in ("l", "t"):
+        return s[0] + ":" + ",".join(sorted({kind(x) for x in leaves(_dec(s[1]))}))
+    return s[0]
+
+
+def is_mixed(specs):
+    """More than one kind / dtype among the non-None entries (decided from the input alone, so a replay gives the same id)."""
+    return len({spec_kind(s) for s in specs if s is not None}) > 1
 
 
 # ----------------------------------------------------------------------------------------------------------------
@@ -419,17 +522,19 @@ def short(x, n=300):
 DUMP = [] if "--dump" in sys.argv else None  # --dump <file>: every failing input, one JSON line each (debugging aid)
 
 
-SCOPE = {"tag": ""}  # kind tag of the collection being evaluated ("a" one kind and dtype, "a+b" mixed)
+def vid_of(clause, cls, specs):
+    """<clause>.<class> for failures with an identified cause or in one-kind collections, <clause>.mixed.<class> otherwise."""
+    if cls in ROOT_CAUSE or not is_mixed(specs):
+        return clause + "." + cls
+    return clause + ".mixed." + cls
 
 
 def flag(vid, what, inp):
-    mixed = "+" in SCOPE["tag"]
-    if mixed:  # own ids for collections that mix kinds / dtypes, so that they cannot mask a one-kind failure of the same class
-        vid = vid.replace(".", ".mixed.", 1) if not vid.startswith("db.params.") else vid.replace("db.params.", "db.params.mixed.", 1)
     VCOUNT[vid] = VCOUNT.get(vid, 0) + 1
     if DUMP is not None:
         DUMP.append({"id": vid, "what": what, "input": inp})
-    size = (len(inp.get("entries", [])), len(json.dumps(inp, default=str)))
+    js = json.dumps(inp, default=str)
+    size = (len(inp.get("entries", [])), len(js), js)  # deterministic: fewest entries, then shortest, then alphabetical
     if vid not in VIOL or size < VIOL[vid][0]:
         VIOL[vid] = (size, what, inp)
 
@@ -581,10 +686,10 @@ def check_pack(specs, entries):
             hit(REJECT, "pack/%s: %s" % (form, type(res).__name__))
             continue
         if st == "read-error":
-            flag("pack.read-error", "pack accepted the data but reading it back raised %s" % short(res, 160), inp)
+            flag(vid_of("pack", "read-error", specs), "pack accepted the data but reading it back raised %s" % short(res, 160), inp)
             continue
         for cls, i in compare(expected, res).items():
-            flag("pack." + cls, "unpack(pack(x)) differs from x at entry %d: wrote %s, read %s" % (i, short(expected, 200), short(res, 200)), inp)
+            flag(vid_of("pack", cls, specs), "unpack(pack(x)) differs from x at entry %d: wrote %s, read %s" % (i, short(expected, 200), short(res, 200)), inp)
 
 
 # ----------------------------------------------------------------------------------------------------------------
@@ -611,7 +716,7 @@ def check_nonsense(specs, entries):
     if enc.dtype.kind == "O" or len(enc) != len(entries):
         flag("nonsense.values", "encoded array is not a typed array of the same length: %s" % short(enc), inp)
         return
-    bad = [i for i, e in enumerate(entries) if e is not None and entry_cmp(e, enc[i]) != "ok"]
+    bad = [i for i, e in enumerate(entries) if e is not None and entry_cmp(e, enc[i])[0] != "ok"]
     if bad:
         flag("nonsense.values", "replaceNonesWithNonsense changed a non-None entry: %s -> %s" % (short(entries), short(enc)), inp)
         return
@@ -622,27 +727,13 @@ def check_nonsense(specs, entries):
         return
     diff = compare(list(entries), list(dec))
     for cls, i in diff.items():
-        vid = {"unsigned-sentinel": "nonsense.unsigned-sentinel", "sentinel-collision": "nonsense.sentinel-collision"}.get(cls, "nonsense.roundtrip")
+        vid = {"unsigned-sentinel": "nonsense.unsigned-sentinel", "sentinel-collision": "nonsense.sentinel-collision"}.get(cls, "nonsense.roundtrip")  # one dtype per call: never mixed
         flag(vid, "replaceNonsenseWithNones(replaceNonesWithNonsense(x)) != x (%s) at %d: x=%s encoded=%s decoded=%s" % (cls, i, short(entries, 150), short(enc, 150), short(dec, 150)), inp)
 
 
 # ----------------------------------------------------------------------------------------------------------------
 # clause jagged: offsets / shapes / nones bookkeeping and fromH5().unpack()
 # ----------------------------------------------------------------------------------------------------------------
-def own_shape(x):
-    """Shape by an own walk; None when the entry is not rectangular."""
-    if isinstance(x, np.ndarray):
-        return tuple(x.shape)
-    if not isinstance(x, (list, tuple)):
-        return ()
-    subs = [own_shape(c) for c in x]
-    if not subs:
-        return (0,)
-    if any(s is None for s in subs) or len(set(subs)) != 1:
-        return None
-    return (len(x),) + subs[0]
-
-
 def check_jagged(specs, entries):
     nonNone = [e for e in entries if e is not None]
     if not nonNone or not all(is_seq(e) for e in nonNone):
@@ -672,22 +763,27 @@ def check_jagged(specs, entries):
     elif [int(np.prod(s)) for s in got] != sizes:
         flag("jagged.shapes", "shape products %s != sizes %s" % (got, sizes), inp)
     flat = [lf for _, e in kept for lf in leaves(e)]
-    if len(flat) == len(ja.flattenedArray) and worst([leaf_cmp(x, y) for x, y in zip(flat, ja.flattenedArray.tolist())]) in ("none", "value"):
-        flag("jagged.flat", "flattenedArray is not the concatenation of the entries: %s vs %s" % (short(ja.flattenedArray), short(flat)), inp)
+    flatCls = None
+    if len(flat) == len(ja.flattenedArray):
+        w = worst([leaf_cmp(x, y) for x, y in zip(flat, ja.flattenedArray.tolist())])
+        if w[0] in ("none", "value"):  # a changed value in the flat array; promotion to one dtype with equal values is not reported here
+            flatCls = w[1]
+            flag(vid_of("jagged", "flat." + w[1], specs), "flattenedArray is not the concatenation of the entries (%s): %s vs %s" % (w[1], short(ja.flattenedArray), short(flat)), inp)
     try:
         back = JaggedArray.fromH5(ja.flattenedArray, ja.offsets, ja.shapes, ja.nones, ja.dtype, NAME).unpack()
     except Exception as e:
         flag("jagged.roundtrip", "fromH5(...).unpack() raised %s" % short(e), inp)
         return
     diff = compare(list(entries), list(back))
+    diff.pop(flatCls, None)  # already reported on the flat array: unpack() only hands that content back
     diff.pop("kind-promotion", None)  # one flat array has one dtype: promotion is reported by the pack / db.params clauses
-    if any(s is None for s in shp) and "shape" in diff:
+    if "shape.inner-ragged-flattened" in diff:
         # JaggedArray's own docstring: "No structure is retained from nested lists of jagged lists" - at the level of this
-        # class the flattening is documented; the property-level clauses (pack / db.params) still report it as .shape
-        diff.pop("shape")
+        # class the flattening is documented; the property-level clauses (pack / db.params) still report it
+        diff.pop("shape.inner-ragged-flattened")
         hit(TOL, "jagged clause only: inner-ragged entry flattened (documented in JaggedArray)")
     for cls, i in diff.items():
-        flag("jagged.roundtrip", "fromH5(...).unpack() differs from the entries (%s) at %d: %s vs %s" % (cls, i, short(entries, 200), short(back, 200)), inp)
+        flag(vid_of("jagged", "roundtrip." + cls, specs), "fromH5(...).unpack() differs from the entries (%s) at %d: %s vs %s" % (cls, i, short(entries, 200), short(back, 200)), inp)
 
 
 # ----------------------------------------------------------------------------------------------------------------
@@ -754,11 +850,11 @@ def check_db(specs, entries, pname=NAME, cls=C05Obj):
         hit(REJECT, "db.params: %s" % type(res).__name__)
         return
     if st == "read-error":
-        vid = "db.params.entries-dropped" if "unmatched sizes" in str(res) else "db.params.read-error"
-        flag(vid, "_writeParams accepted the values %s but _readParams raised %s" % (short(entries, 150), short(res, 200)), inp)
+        cls = "jagged-entry-skipped" if has_skippable_entry(entries) else ("entries-dropped" if "unmatched sizes" in str(res) else "read-error")
+        flag(vid_of("db.params", cls, specs), "_writeParams accepted the values %s but _readParams raised %s" % (short(entries, 150), short(res, 200)), inp)
         return
     for c, i in compare(list(entries), res[pname]).items():
-        flag("db.params." + c, "value read by _readParams differs from the value written by _writeParams at object %d: wrote %s, read %s" % (i, short(entries, 200), short(res[pname], 200)), inp)
+        flag(vid_of("db.params", c, specs), "value read by _readParams differs from the value written by _writeParams at object %d: wrote %s, read %s" % (i, short(entries, 200), short(res[pname], 200)), inp)
 
 
 def each_kind_values():
@@ -956,11 +1052,9 @@ def main():
     kinds_seen = set()
     for tag, specs in collections():
         kinds_seen.add(tag)
-        SCOPE["tag"] = tag
         run_one(specs)
         if all(s is None or s[0] == "F" for s in specs) and any(s is not None for s in specs):
             flagCases.append(specs)
-    SCOPE["tag"] = ""
     check_spill()
     check_hierarchy()
     check_full_db()
@@ -982,6 +1076,7 @@ def main():
         # one entry per id (at most ~30): appended directly, Bounded.violation() would cut the list at 20
         B.violations.append({"id": vid, "what": what + "  [%d failing inputs with this id]" % VCOUNT[vid], "input": inp})
     B.extra["violation_counts"] = dict(sorted(VCOUNT.items()))
+    B.extra["reachable_through_writeParams"] = {k: ("db.params." + k[len("pack."):]) in VCOUNT for k in sorted(VCOUNT) if k.startswith("pack.")}
     B.extra["strategies_hit"] = dict(sorted(STRAT.items()))
     B.extra["strategies_unreachable"] = ["final-raise (the two raise statements at the end of packSpecialData are dead code: the preceding `if any(isinstance(d, (tuple, list, np.ndarray)) ...)` is always true when reached)"] if "pack:final-raise" not in STRAT else []
     B.extra["db_routes"] = dict(sorted(ROUTES.items()))
